@@ -57,15 +57,20 @@ def cases(tier, seed):
                     yield {"k": "conv", "skind": skind, "files": fset, "tkind": tkind, "sel": [], "mode": "upper", "absent": True}
             if fset:
                 yield {"k": "chain", "skind": skind, "files": fset}
+                if skind == "cas":
+                    # a source tape recorded with gaps between blocks (gap flag $FF in its name-file blocks)
+                    for tkind in ("cas", "dsk"):
+                        yield {"k": "conv", "skind": "cas", "files": fset, "tkind": tkind, "sel": None, "mode": None, "absent": False, "gaps": 3}
             if len(fset) in (1, 2):
                 yield {"k": "bin", "skind": skind, "files": fset, "sel": None}
                 yield {"k": "bin", "skind": skind, "files": fset, "sel": [fset[0]]}
 
 
-def write_source(path, kind, fset):
+def write_source(path, kind, fset, gaps=None):
     specs = [FILES[i] for i in fset]
     if kind == "cas":
-        b = tape.write([dict(name=s["name"], type=s["type"], dtype=s["dtype"], load=s["load"], exec=s["exec"], data=C.pattern(s["n"], s["pat"])) for s in specs])
+        b = tape.write([dict(name=s["name"], type=s["type"], dtype=s["dtype"], load=s["load"], exec=s["exec"], data=C.pattern(s["n"], s["pat"])) for s in specs],
+                       gap=gaps)
     else:
         fl = []
         g = 10
@@ -113,7 +118,7 @@ def check_case(case):
     names = ",".join(FILES[i]["name"] for i in case["files"]) or "none"
     if case["k"] == "conv":
         sel = "all" if case["sel"] is None else (",".join(FILES[i]["name"] for i in case["sel"]) + ("+absent" if case["absent"] else "")) or "absent-only"
-        cell = "conv|{}>{}|{}|sel={}|{}".format(case["skind"], case["tkind"], names, sel, case["mode"] or "-")
+        cell = "conv|{}{}>{}|{}|sel={}|{}".format(case["skind"], ".gaps" if case.get("gaps") else "", case["tkind"], names, sel, case["mode"] or "-")
     elif case["k"] == "chain":
         cell = "chain|{}|{}".format(case["skind"], names)
     else:
@@ -127,7 +132,7 @@ def check_case(case):
     try:
         os.chdir(td)
         src = "src." + case["skind"]
-        specs = write_source(src, case["skind"], case["files"])
+        specs = write_source(src, case["skind"], case["files"], case.get("gaps"))
         if case["k"] == "conv":
             tgt = "tgt." + case["tkind"]
             files_arg = None
